@@ -103,6 +103,8 @@ M = [
   "if let Err(err) = self.process_packet(&recv_buffer[..count], addr, &mut on_discovery).await {\n                        log::error!(\"Failed to process received packet {err}\");\n                    }",
   "match self.process_packet(&recv_buffer[..count], addr, &mut on_discovery).await { Ok(()) => {} Err(err) => break Err(err), }", 'untied:mdns.discovery_send:tokio'),
  ("sync send_packet returns nothing but panics", 'simple-mdns/src/sync_discovery/service_discovery.rs', "    if let Err(err) = socket.send_to(packet_bytes, address) {\n        log::error!(\"There was an error sending the  packet: {err}\");\n    }", "    socket.send_to(packet_bytes, address).unwrap();", 'untied:mdns.discovery_send:sync'),
+ ("RData::into_owned rebuilds NULL with the constant type code", D + 'rdata/macros.rs', "RData::NULL(rdatatype, data) => RData::NULL(rdatatype, data.into_owned()),", "RData::NULL(_, data) => RData::NULL(NULL::TYPE_CODE, data.into_owned()),", 'untied:rdata.enum_arms'),
+ ("RData::type_code reports NULL for every opaque record", D + 'rdata/macros.rs', "RData::NULL(type_code, _) => TYPE::from(*type_code),", "RData::NULL(_, _) => TYPE::NULL,", 'untied:rdata.enum_arms'),
  ("MessageWriter::flush does nothing", D + 'packet.rs', "        self.inner.flush()\n", "        Ok(())\n", 'untied:packet.message_writer'),
  ("MessageWriter::seek forgets the start", D + 'packet.rs', "std::io::SeekFrom::Start(self.start + offset)", "std::io::SeekFrom::Start(offset)", 'untied:packet.message_writer'),
  ("mdns refresh in millis", 'simple-mdns/src/resource_record_manager.rs', 'added + Duration::from_secs(ttl / 2)', 'added + Duration::from_millis(ttl / 2)', 'untied:mdns.expiration'),
